@@ -205,6 +205,8 @@ PROPS = {
                  'stack_validate (loop body + head, verbatim): frame sizes are registered for pc 0 and for the target of every LOCAL call, with the calculator\'s value for that entry'),
             Part('jit', lambda h: h == 'arm_call_local', lambda h, c, info=None: 'ensures:' in desc(c),
                  'JIT emit_local_call against the x86 semantics: r6-r9 pushed, call to pc+1+imm, popped in reverse, rsp balanced and equally aligned in the callee (r10 lowering: known finding jit-local-call-r10)'),
+            Part('vmapi', lambda h: h in ('mbuff_set_stack_usage_calculator', 'mbuff_set_program', 'mbuff_execute_program'), lambda h, c, info=None: 'ensures:' in desc(c),
+                 'VM API: the registered stack-usage calculator is kept whatever the order of registration and loading, the frame sizes in force are those computed from the loaded program with it, and the interpreter is run with them'),
         ],
         level_text='Per-step contracts with explicit frame conditions for every arm; pairing of a call with its return follows by induction on nesting (stated, not mechanised).',
         assumptions=['call/return pairing lemma (induction on nesting) is a paper argument over the proved frame conditions',
@@ -470,7 +472,7 @@ def replay_has_input(path):
 def write_replay(pid, unit_name, h, obs, extract=True):
     d = os.path.join(WORK, 'replay')
     os.makedirs(d, exist_ok=True)
-    path = os.path.join(d, '%s_%s_%s.json' % (pid, unit_name, h))
+    path = os.path.join(d, '%s_%s_%s.json' % (pid, unit_name, re.sub(r'[^A-Za-z0-9_.-]', '_', h)))
     rec = dict(property=pid, unit=unit_name, harness=h,
                failed_obligations=[dict(name=o['name'], location=o.get('location'), backend=o['backend']) for o in obs],
                verifier_output=obs[0].get('output', ''),
